@@ -103,7 +103,7 @@ func cmdStruct(args []string) {
 	b := hx.NewBatch(*work)
 	b.WriteGoMod()
 	var src strings.Builder
-	src.WriteString("package p\n\nimport \"" + b.Mod + "/q\"\n\nvar _ q.TQ\n\nfunc Fn(x int) int { return x }\n\ntype DS struct {\n\tA int\n\tB int\n}\ntype DT struct {\n\tA int\n\tB int\n}\ntype FPS struct{ V int }\ntype UN struct{ X int }\ntype UNI struct {\n\tX     int\n\tExtra interface{}\n}\ntype USI struct{ N UNI }\ntype UTI struct{ N UNI }\ntype UTags map[string]int\ntype UH struct{ X int }\ntype UHO struct{ X int }\ntype US struct {\n\tA  int\n\tN  UN\n\tP  *int\n\tL  []int\n\tM  map[string]int\n\tNM UTags\n\tPH *UH\n}\ntype UT struct {\n\tA  int\n\tN  UN\n\tP  *int\n\tL  []int\n\tLS []string\n\tM  map[string]int\n\tNM UTags\n\tPH *UHO\n}\n\nfunc ToS(v []int) []string {\n\tif v == nil {\n\t\treturn []string{\"nil\"}\n\t}\n\treturn []string{\"7\"}\n}\n\ntype Money struct{ V int }\ntype Price struct{ V int }\ntype Cost struct{ V int }\ntype DS2 struct {\n\tA int\n\tM Money\n\tN Money\n}\ntype DT2 struct {\n\tA int\n\tM Price\n\tN Cost\n}\n\nfunc NewT2() *DT2 { return &DT2{A: 100} }\n\nfunc NewDL() []*struct{ A int } { return nil }\n\ntype MN struct {\n\tV    int\n\tNext *MN\n}\ntype MNO struct {\n\tV     int\n\tNextV int\n\tSum   int\n\tSelf  *MN\n}\n\nfunc NextVal(n *MN) int {\n\tif n == nil {\n\t\treturn -1\n\t}\n\treturn n.V\n}\n\nfunc Summarize(n *MN) int {\n\tif n == nil || n.Next == nil {\n\t\treturn -1\n\t}\n\treturn n.V + n.Next.V\n}\n\ntype UNT struct {\n\tX       int\n\tHistory []int\n}\ntype UCS struct{ N UN }\ntype UCT struct{ N UNT }\ntype UNS struct{ L []int }\ntype UOS struct {\n\tA int\n\tN UNS\n}\ntype UOT struct {\n\tA int\n\tN UNS\n}\ntype UDS struct{ A int }\ntype UDT struct {\n\tA   int\n\tAll UDS\n}\ntype UWS struct{ V string }\ntype UWT struct{ V int }\n\nfunc AtoiU(s string) (int, error) { return 0, errBoom{} }\n\ntype errBoom struct{}\n\nfunc (errBoom) Error() string { return \"boom\" }\n\nfunc Twice(v int) int { return 2 * v }\n\nfunc NewUWT() UWT { return UWT{V: 100} }\n\nfunc NewDM() map[string]int { return map[string]int{\"origin\": 1} }\n\ntype DR struct {\n\tV    int\n\tKids []DR\n}\ntype DRO struct {\n\tV    int\n\tKeep int\n\tKids []DRO\n}\n\nfunc NewDRO() *DRO { return &DRO{Keep: 100} }\n\ntype DV struct{ V int }\ntype DVO struct {\n\tV    int\n\tKeep int\n}\n\nfunc NewDVO() *DVO { return &DVO{Keep: 100} }\n")
+	src.WriteString("package p\n\nimport \"" + b.Mod + "/q\"\n\nvar _ q.TQ\n\nfunc Fn(x int) int { return x }\n\ntype DS struct {\n\tA int\n\tB int\n}\ntype DT struct {\n\tA int\n\tB int\n}\ntype FPS struct{ V int }\ntype UN struct{ X int }\ntype UNI struct {\n\tX     int\n\tExtra interface{}\n}\ntype USI struct{ N UNI }\ntype UTI struct{ N UNI }\ntype UTags map[string]int\ntype UH struct{ X int }\ntype UHO struct{ X int }\ntype US struct {\n\tA  int\n\tN  UN\n\tP  *int\n\tL  []int\n\tM  map[string]int\n\tNM UTags\n\tPH *UH\n}\ntype UT struct {\n\tA  int\n\tN  UN\n\tP  *int\n\tL  []int\n\tLS []string\n\tM  map[string]int\n\tNM UTags\n\tPH *UHO\n}\n\nfunc ToS(v []int) []string {\n\tif v == nil {\n\t\treturn []string{\"nil\"}\n\t}\n\treturn []string{\"7\"}\n}\n\ntype Money struct{ V int }\ntype Price struct{ V int }\ntype Cost struct{ V int }\ntype DS2 struct {\n\tA int\n\tM Money\n\tN Money\n}\ntype DT2 struct {\n\tA int\n\tM Price\n\tN Cost\n}\n\nfunc NewT2() *DT2 { return &DT2{A: 100} }\n\nfunc NewDL() []*struct{ A int } { return nil }\n\ntype MN struct {\n\tV    int\n\tNext *MN\n}\ntype MNO struct {\n\tV     int\n\tNextV int\n\tSum   int\n\tSelf  *MN\n}\n\nfunc NextVal(n *MN) int {\n\tif n == nil {\n\t\treturn -1\n\t}\n\treturn n.V\n}\n\nfunc Summarize(n *MN) int {\n\tif n == nil || n.Next == nil {\n\t\treturn -1\n\t}\n\treturn n.V + n.Next.V\n}\n\ntype UNT struct {\n\tX       int\n\tHistory []int\n}\ntype UBS struct {\n\tF int\n\tG string\n\tH *int\n}\ntype UBT struct {\n\tF *int\n\tG *string\n\tH int\n}\ntype UCS struct{ N UN }\ntype UCT struct{ N UNT }\ntype UNS struct{ L []int }\ntype UOS struct {\n\tA int\n\tN UNS\n}\ntype UOT struct {\n\tA int\n\tN UNS\n}\ntype UDS struct{ A int }\ntype UDT struct {\n\tA   int\n\tAll UDS\n}\ntype UWS struct{ V string }\ntype UWT struct{ V int }\n\nfunc AtoiU(s string) (int, error) { return 0, errBoom{} }\n\ntype errBoom struct{}\n\nfunc (errBoom) Error() string { return \"boom\" }\n\nfunc Twice(v int) int { return 2 * v }\n\nfunc NewUWT() UWT { return UWT{V: 100} }\n\nfunc NewDM() map[string]int { return map[string]int{\"origin\": 1} }\n\ntype DR struct {\n\tV    int\n\tKids []DR\n}\ntype DRO struct {\n\tV    int\n\tKeep int\n\tKids []DRO\n}\n\nfunc NewDRO() *DRO { return &DRO{Keep: 100} }\n\ntype DV struct{ V int }\ntype DVO struct {\n\tV    int\n\tKeep int\n}\n\nfunc NewDVO() *DVO { return &DVO{Keep: 100} }\n")
 	type drvCall struct {
 		Args []any `json:"args"`
 		Dump []int `json:"dump"`
@@ -212,6 +212,19 @@ func cmdStruct(args []string) {
 					vals = append(vals, lit(1))
 				}
 				drvLines[i]["ins"] = []any{stv(vals...)}
+			case "method-ctx":
+				par, ret := fmt.Sprintf("XL%d", i), "2"
+				if q["named"] == true {
+					par, ret = fmt.Sprintf("l XL%d", i), "l.K"
+				}
+				fmt.Fprintf(&src, "\ntype XL%d struct{ K int }\ntype XS%d struct{ Other int }\n\nfunc (XS%d) Name(%s) int { return %s }\n\ntype XT%d struct{ Name int }\n\n// goverter:converter\n%stype C%d interface {\n", i, i, i, par, ret, i, head(i), i)
+				if q["avail"] == true {
+					fmt.Fprintf(&src, "\t// goverter:context loc\n\tConv(loc XL%d, source XS%d) XT%d\n}\n", i, i, i)
+					drvLines[i]["calls"] = []drvCall{{Args: []any{stv(lit(4)), stv(lit(0))}, Dump: []int{}}}
+				} else {
+					fmt.Fprintf(&src, "\tConv(source XS%d) XT%d\n}\n", i, i)
+					drvLines[i]["ins"] = []any{stv(lit(0))}
+				}
 			case "misc":
 				switch q["sub"] {
 				case "nested":
@@ -376,6 +389,20 @@ func cmdStruct(args []string) {
 		case "update-tnc":
 			fmt.Fprintf(&src, "\n// goverter:converter\n// goverter:ignoreMissing\n%stype C%d interface {\n\t// goverter:update target\n\t// goverter:update:ignoreZeroValueField:struct\n\tUpdate(source UCS, target *UCT)\n}\n", head(i), i)
 			drvLines[i]["calls"] = []drvCall{{Args: []any{stv(stv(lit(0))), ptrv(stv(stv(lit(9), map[string]any{"k": "s", "a": "i", "es": []any{lit(9)}})))}, Dump: []int{1}}}
+		case "update-cat":
+			var q map[string]bool
+			hx.Must(json.Unmarshal(s.Prog, &q))
+			fl := ""
+			if q["basic"] {
+				fl += "\t// goverter:update:ignoreZeroValueField:basic\n"
+			}
+			if q["nillable"] {
+				fl += "\t// goverter:update:ignoreZeroValueField:nillable\n"
+			}
+			fmt.Fprintf(&src, "\n// goverter:converter\n// goverter:useZeroValueOnPointerInconsistency\n%stype C%d interface {\n\t// goverter:update target\n%s\tUpdate(source UBS, target *UBT)\n}\n", head(i), i, fl)
+			zs := map[string]any{"k": "b", "tok": "z"}
+			preT := func() any { return ptrv(stv(ptrv(lit(9)), ptrv(lit(9)), lit(9))) }
+			drvLines[i]["calls"] = []drvCall{{Args: []any{stv(lit(0), zs, nilv()), preT()}, Dump: []int{1}}, {Args: []any{stv(lit(7), lit(7), ptrv(lit(7))), preT()}, Dump: []int{1}}}
 		case "update-odd":
 			var q map[string]any
 			hx.Must(json.Unmarshal(s.Prog, &q))
@@ -534,7 +561,7 @@ func cmdStruct(args []string) {
 		if o.Gen == "ok" {
 			b.WriteOutputs(i, o.Files)
 			m := "Conv"
-			if scens[i].Kind == "update" || scens[i].Kind == "update-iface" || scens[i].Kind == "update-wrap" || scens[i].Kind == "update-odd" || scens[i].Kind == "update-tnc" {
+			if scens[i].Kind == "update" || scens[i].Kind == "update-iface" || scens[i].Kind == "update-wrap" || scens[i].Kind == "update-odd" || scens[i].Kind == "update-tnc" || scens[i].Kind == "update-cat" {
 				m = "Update"
 			}
 			b.Reg[i] = fmt.Sprintf("reflect.ValueOf((&gen.C%dImpl{}).%s)", i, m)
@@ -662,7 +689,11 @@ func cmdStruct(args []string) {
 			for _, r := range byID[i] {
 				nExec++
 				if r["panic"] != true {
-					base["full"] = litOf(r["out"].(map[string]any)["fs"].([]any)[0])
+					if outs, okk := r["outs"].([]any); okk && len(outs) > 0 {
+						base["full"] = litOf(outs[0].(map[string]any)["fs"].([]any)[0])
+					} else {
+						base["full"] = litOf(r["out"].(map[string]any)["fs"].([]any)[0])
+					}
 				}
 			}
 			obs.Write(base)
@@ -670,6 +701,39 @@ func cmdStruct(args []string) {
 			obs.Write(base)
 		case "update-odd":
 			base["prog"] = s.Prog
+			obs.Write(base)
+		case "update-cat":
+			base["prog"] = s.Prog
+			base["panic"] = false
+			posts := [][]string{{"other", "other", "other"}, {"other", "other", "other"}}
+			for _, r := range byID[i] {
+				nExec++
+				j := int(r["j"].(float64))
+				if r["panic"] == true || j > 1 {
+					base["panic"] = true
+					continue
+				}
+				t := r["after"].([]any)[0].(map[string]any)["e"].(map[string]any)["fs"].([]any)
+				val := func(v any) int {
+					m := v.(map[string]any)
+					if m["k"] == "p" {
+						return litOf(m["e"])
+					}
+					if m["k"] == "nil" {
+						return -1
+					}
+					return litOf(m)
+				}
+				for k := 0; k < 3; k++ {
+					switch v := val(t[k]); {
+					case v == 9:
+						posts[j][k] = "keep"
+					case j == 1 && v == 7, j == 0 && v == 0:
+						posts[j][k] = "conv"
+					}
+				}
+			}
+			base["postZero"], base["postFull"] = posts[0], posts[1]
 			obs.Write(base)
 		case "update-tnc":
 			base["prog"] = s.Prog
